@@ -34,6 +34,13 @@ pub struct ReplayFile {
     pub violation: Violation,
     pub minimised: bool,
     pub note: String,
+    /// which build of the simulator recorded it ("default", or "serde_codec": foyer's `serde` feature on)
+    #[serde(default)]
+    pub build_variant: String,
+}
+
+pub fn build_variant() -> &'static str {
+    if cfg!(feature = "serde_codec") { "serde_codec" } else { "default" }
 }
 
 #[derive(Clone, Debug, Serialize, Deserialize)]
@@ -621,6 +628,7 @@ pub fn check_property(plan: &Plan) -> i32 {
                     out.io_record.len(),
                     execs
                 ),
+                build_variant: build_variant().to_string(),
             };
             let path = write_replay(&rf);
             // final confirmation in a fresh process
@@ -642,6 +650,20 @@ pub fn check_property(plan: &Plan) -> i32 {
     let wall = t0.elapsed().as_secs_f64();
     let evaluations = results.len() as u64;
     let zero_probes: Vec<String> = crate::cgen::expected_probes(&plan.property).into_iter().filter(|p| probes.get(*p).copied().unwrap_or(0) == 0).map(|s| s.to_string()).collect();
+    // evidence of the same check run with another build of the simulator (C08: foyer's `serde` feature on), merged in
+    let other_variants: Vec<serde_json::Value> = std::env::var("VERIF_MERGE_EVIDENCE")
+        .ok()
+        .and_then(|p| std::fs::read_to_string(p).ok())
+        .and_then(|t| serde_json::from_str::<serde_json::Value>(&t).ok())
+        .map(|v| {
+            let c = &v["coverage"];
+            vec![json!({
+                "build_variant": c["build_variant"], "evaluations": c["evaluations"], "distinct_nontrivial": c["distinct_nontrivial"],
+                "faults_fired": c["faults_fired"], "reach_probes": c["reach_probes"], "simulated_time": c["simulated_time"],
+                "violations": v["violations"], "wall_s": v["wall_s"], "samples": [c["samples"][0]],
+            })]
+        })
+        .unwrap_or_default();
     let ev = json!({
         "property_id": plan.property,
         "tier": if plan.thorough { "thorough" } else { "quick" },
@@ -662,6 +684,8 @@ pub fn check_property(plan: &Plan) -> i32 {
             "known_findings_hit": known_hits,
             "real_vs_stub": real_vs_stub(),
             "exhaustive": false,
+            "build_variant": build_variant(),
+            "other_build_variants": other_variants,
         },
         "assumptions": [
             "shuttle models sequentially consistent atomics only; Relaxed/Acquire/Release are explored as SeqCst",
